@@ -83,6 +83,7 @@ type startObs struct {
 	Fault     string        `json:"fault"`
 	Held      bool          `json:"held"`
 	Ret       string        `json:"ret"` // nil | err  (channels.Start result; for the manager: the outcome seen by listeners, or "none")
+	Probe     string        `json:"probe"` // nil | err: can the store be used right after this start (ground truth for the announced outcome)
 	Listeners []listenerObs `json:"listeners"`
 }
 type chanObs struct {
@@ -311,21 +312,28 @@ func runChanPath(c caseDef) (po pathObs) {
 		chanPreOps(n, rec, c, attempt, "new", &po.Pre)
 		g.Arm(hold)
 		var serr error
+		sctx, scancel := context.WithCancel(context.Background())
 		if hold {
 			done := make(chan error, 1)
-			go func() { done <- n.Ch.Start(context.Background()) }()
+			go func() { done <- n.Ch.Start(sctx) }()
 			select {
 			case <-g.Arrived:
 				so.Held = true
 				chanPreOps(n, rec, c, attempt, "starting", &po.Pre)
+				if so.Fault == "ctxCancel" { // the start context ends while the migration is in flight
+					scancel()
+				}
 				g.Release()
 				serr = <-done
 			case serr = <-done:
 			}
 		} else {
-			serr = n.Ch.Start(context.Background())
+			serr = n.Ch.Start(sctx)
 		}
 		so.Ret = errNE(serr)
+		_, perr := n.Ch.InProgress()
+		so.Probe = errNE(perr)
+		_ = scancel
 		po.Starts = append(po.Starts, so)
 		if serr != nil {
 			chanPreOps(n, rec, c, attempt, "failed", &po.Pre)
@@ -668,7 +676,9 @@ func runMgrPath(c caseDef) (po pathObs) {
 			mgrPreOps(m, rec, c, attempt, "new", &po.Pre)
 		}
 		g.Arm(hold)
-		if err := m.Start(context.Background()); err != nil {
+		sctx, scancel := context.WithCancel(context.Background())
+		_ = scancel
+		if err := m.Start(sctx); err != nil {
 			return false, fmt.Errorf("manager Start: %w", err)
 		}
 		synctest.Wait()
@@ -677,6 +687,9 @@ func runMgrPath(c caseDef) (po pathObs) {
 			case <-g.Arrived:
 				so.Held = true
 				mgrPreOps(m, rec, c, attempt, "starting", &po.Pre)
+				if fault == "ctxCancel" { // the start context ends while the migration is in flight
+					scancel()
+				}
 				g.Release()
 				synctest.Wait()
 			default:
@@ -692,6 +705,7 @@ func runMgrPath(c caseDef) (po pathObs) {
 		_, ierr := m.InProgressChannels(ctx)
 		cancel()
 		so.Ret = errNE(ierr)
+		so.Probe = so.Ret
 		po.Starts = append(po.Starts, so)
 		return ierr == nil, nil
 	}
